@@ -16,12 +16,14 @@ from .symex import (
 )
 
 
-def caller_visible(clauses):
+def caller_visible(clauses, export=None):
     """clauses a caller may assume: those that speak about parameters, result and
     heap only - not about the callee's own trace of external calls"""
     out = []
     for cl in clauses:
         text = named(cl)[1]
+        if export is not None and named(cl)[0] not in export:
+            continue
         if any(w in text for w in ("ev(", "evn(", "n_calls(", "created_here(", "final_")):
             continue
         out.append(cl)
@@ -437,6 +439,42 @@ class LoopMixin:
                     env[cname] = self.lookup(cname, self.cur_frame)
                 except Unsupported:
                     pass
+        if self.in_spec:
+            # a pure function under contract used inside a clause: its result is a
+            # function of the arguments (and of the heap snapshot the clause looks
+            # at); its caller-visible postconditions are facts about that value
+            if unit.modifies is not None:
+                raise Unsupported(f"call of {unit.name} in a clause: only pure contract functions are allowed")
+            names = [k for k in vals]
+            raws = [self.to_val(vals[k]) if not (vals[k].k == "py" and not isinstance(
+                vals[k].r, (PyFunc, PyClass, list, tuple))) else NONE for k in names]
+            vers = [self.heap.version(nm) for nm in sorted(self.heap.ver)]
+            f = z3.Function("pure_" + unit.name.replace(".", "_"),
+                            *[x.sort() for x in vers], *[Val for _ in raws], Val)
+            r = f(*vers, *raws)
+            rt = unit.returns
+            tv = TV("val", r, rt if rt and rt != "any" else None)
+            if rt and rt != "any":
+                self.spec_side.append(self.type_fact(r, rt))
+            env2 = dict(env)
+            env2["result"] = tv
+            from .spec import SpecEval
+
+            for cl in caller_visible(unit.ensures):
+                text = named(cl)[1]
+                sub = SpecEval(self, env2, self.heap, self.heap, {})
+                saved = self.spec_mode if hasattr(self, "spec_mode") else "prove"
+                self.spec_mode = "assume"
+                try:
+                    fr2 = Frame()
+                    fr2.vars.update(env2)
+                    fr2.func = getattr(self, "root_func", None)
+                    from .spec import parse_expr
+
+                    self.spec_side.append(self.truthy(self.eval(parse_expr(text), fr2)))
+                finally:
+                    self.spec_mode = saved
+            return tv
         for i, cl in enumerate(unit.requires):
             lab, text, prop = named(cl)
             t, side = self.spec(text, env, old_heap=self.heap)
@@ -500,7 +538,7 @@ class LoopMixin:
                     self.assume(self.type_fact(r, rt))
             env2 = dict(env)
             env2["result"] = tv
-            self.assume_clauses(caller_visible(unit.ensures), env2, old_heap=old)
+            self.assume_clauses(caller_visible(unit.ensures, unit.export), env2, old_heap=old)
             self.trace.append({"name": "call:" + unit.name, "args": dict(env), "result": r,
                                "heap_before": old, "heap_after": self.heap, "line": line})
             return tv
@@ -520,7 +558,7 @@ class LoopMixin:
         etv = TV("val", mk_ref(e), hint)
         env2 = dict(env)
         env2["exc"] = etv
-        self.assume_clauses(caller_visible(unit.raises[k]), env2, old_heap=old)
+        self.assume_clauses(caller_visible(unit.raises[k], unit.export), env2, old_heap=old)
         self.trace.append({"name": "call:" + unit.name, "args": dict(env), "exc": etv.r,
                            "heap_before": old, "heap_after": self.heap, "line": line})
         raise PyRaise(etv, known_cls=None, origin=f"call:{unit.name}")
